@@ -217,7 +217,7 @@ class RoundTrip(Part):
 
     def budget(self, tier):
         return {"quick": dict(examples=1200, shards=6, seconds=80),
-                "thorough": dict(examples=20000, shards=16, seconds=900)}[tier]
+                "thorough": dict(examples=20000, shards=16, seconds=600)}[tier]
 
     def strategy(self, tier):
         return rendered()
@@ -444,7 +444,7 @@ class NearMiss(Part):
 
     def budget(self, tier):
         return {"quick": dict(examples=1500, shards=6, seconds=80),
-                "thorough": dict(examples=30000, shards=16, seconds=900)}[tier]
+                "thorough": dict(examples=30000, shards=16, seconds=600)}[tier]
 
     def strategy(self, tier):
         return near_miss()
